@@ -249,7 +249,9 @@ func (r restClientProtocol) prepareMarshalledResponse(op *operation, base []byte
 		if contentType != "" {
 			headers.Set("Content-Type", contentType)
 		}
-		return bytes, nil
+		// The data may still live in the buffer it was decoded from, which
+		// is released once this message is encoded: copy it.
+		return append(base, bytes...), nil
 	}
 
 	msg, leafField, err := getBodyField(op.restTarget.responseBodyFields, src.ProtoReflect(), protoreflect.Message.Get)
@@ -362,7 +364,9 @@ func (r restServerProtocol) prepareMarshalledRequest(op *operation, base []byte,
 		contentType := msg.Get(fields.ByName("content_type")).String()
 		bytes := msg.Get(fields.ByName("data")).Bytes()
 		headers.Set("Content-Type", contentType)
-		return bytes, nil
+		// The data may still live in the buffer it was decoded from, which
+		// is released once this message is encoded: copy it.
+		return append(base, bytes...), nil
 	}
 	if leafField == nil {
 		return op.server.codec.MarshalAppend(base, msg.Interface())
